@@ -49,7 +49,8 @@ PROBES = ["waiter_parked_on_thread_lock_during_swap", "two_first_starts_racing",
           "query_while_other_task_waits", "fork", "spawn", "screen_redraw_step",
           "reply_later_than_timeout", "stale_reply_waiting_in_queue", "foreign_reply_seen_by_query",
           "first_start_with_queries_disabled", "no_active_terminal",
-          "process_lock_creation_failed", "synchronized_call_raised", "screen_write_step"]
+          "process_lock_creation_failed", "synchronized_call_raised", "screen_write_step",
+          "process_start_failed_after_hand_over"]
 COMPONENTS = {
     "real": ["term_image.utils.lock_tty / query_terminal / read_tty / write_tty / get_cell_size",
              "_process_start_wrapper / _process_run_wrapper and the import-time Process patching "
@@ -181,6 +182,13 @@ def run(ch, ctx, fault=None):
     # a transient failure to create the process-shared lock at the first Process.start()
     if fault is None and budget[0] and ch.bool("lock_creation_fault", 0.15):
         fault = {"kind": "mp.rlock", "k": 1, "when": "before", "exc": "OSError"}
+        k.fault = fault
+        ctx.log("fault", fault)
+    elif fault is None and budget[0] and ch.bool("start_failure", 0.15):
+        # ... or the start itself fails after the lock hand-over (fork: EAGAIN; spawn: an
+        # unpicklable argument): the caller survives, other starts and children go on
+        fault = {"kind": "proc.start", "k": ch.int("failing_start", 1, 2), "when": "before",
+                 "exc": "OSError"}
         k.fault = fault
         ctx.log("fault", fault)
     programs = [gen_program(ch, 0, budget, mode) for _ in range(n_root)]
@@ -423,7 +431,8 @@ def run(ch, ctx, fault=None):
                         # up as an overlap)
                         if not (k.fault_done and not fired0):
                             raise
-                        ctx.probe("process_lock_creation_failed")
+                        ctx.probe("process_lock_creation_failed" if fault["kind"] == "mp.rlock"
+                                  else "process_start_failed_after_hand_over")
                     finally:
                         if first_start_window["active"]:
                             first_start_window["active"] -= 1
